@@ -62,6 +62,69 @@ def run (t : Tier) : Emit Unit := do
         emit "C09" (parseDataCase pid pmt (unit.take cut) originals "truncation")
         let extra ← liftGen (do let n ← randRange 1 8; randBytes n)
         emit "C09" (parseDataCase pid pmt ((unit.take (unit.length - 3)) ++ extra) originals "extension")
+  -- sections whose CRC_32 is CORRECT for bytes that are not a well-formed section (a decoder that trusts the CRC still
+  -- has to reject, or deliver exactly what the bytes say): the model's outcome is the reference here
+  for k in [0:6] do
+    for _ in [0:(if t.quick then 1 else 5)] do
+      let (_, sb) ← liftGen (genSectionOfKind k false)
+      let (pid, pmt) := pidForKind k
+      let body := sb.take (sb.length - 4)
+      let recrc (b : Bytes) : Bytes := b ++ be32' (Spec.crc b).toNat
+      let setLen (b : Bytes) (l : Nat) : Bytes := (b.set 1 ((b.getD 1 0) / 16 * 16 + l / 256 % 16)).set 2 (l % 256)
+      let sl := (body.getD 1 0) % 16 * 256 + body.getD 2 0
+      -- (a) section_length announces 4 bytes more than the unit carries, the bytes present end with their own CRC
+      --     (residue 0): the CRC_32 field itself is missing
+      emit "C09" (parseDataCase pid pmt ([0] ++ recrc (setLen body (sl + 4))) [] "crc-valid-truncated")
+      -- (b) one byte of the section set to 0xff / 0x00 / +1 and the CRC recomputed: lengths of loops and descriptors
+      --     that overrun the section or the unit, flags that announce parts that are not there
+      for i in [0:body.length] do
+        for v in [0xff, 0x00, (body.getD i 0 + 1) % 256] do
+          if v != body.getD i 0 then
+            emit "C09" (parseDataCase pid pmt ([0] ++ recrc (body.set i v) ++ [0xff, 0xff]) [] "crc-valid-substitution")
+      -- (c) slack between the end of the table data and the CRC (section_length 2 bytes larger than the table needs)
+      emit "C09" (parseDataCase pid pmt ([0] ++ recrc (setLen (body ++ [0xaa, 0xbb]) (sl + 2)) ++ [0xff]) [] "crc-valid-slack")
+      -- (d) section_length 4..12: nothing, or not enough, between the header and a correct CRC
+      for l in [4:13] do
+        let junk ← liftGen (randBytes (l - 4))
+        for tl in [0, 1, 3] do
+          emit "C09" (parseDataCase pid pmt ([0] ++ recrc (setLen (body.take 3 ++ junk) l) ++ List.replicate tl 0xff) [] "crc-valid-tiny")
+  -- (e) a descriptor in one loop entry declares more bytes than the whole unit has left, and what follows it parses as a
+  --     further loop entry; the CRC is correct; the unit ends with the CRC (no stuffing to read into)
+  let syn : Bytes := [0, 1, 0xc1, 0, 0]
+  let ev (id : Nat) (ll : Nat) : Bytes := [0, id, 0xc0, 0x79, 0x12, 0x45, 0x00, 0x01, 0x30, 0x00, 0xf0, ll]
+  for bad in [[0x80, 0xff], [0x4d, 0xff], [0x0a, 0xf0], [0x48, 0xff], [0x05, 0xff]] do
+    let mkUnit (tid : Nat) (body : Bytes) : Bytes :=
+      let l := body.length + 4
+      let sec : Bytes := [tid, 0xb0 + l / 256, l % 256] ++ body
+      [0] ++ sec ++ be32' (Spec.crc sec).toNat
+    let cases : List (Nat × List Nat × Bytes) := [
+      (0x11, [], mkUnit 0x42 (syn ++ [0, 1, 0xff] ++ [0, 1, 0xfc, 0x80, 0x02] ++ bad ++ [0, 2, 0xfc, 0x80, 0x00])),
+      (0x11, [], mkUnit 0x42 (syn ++ [0, 1, 0xff] ++ [0, 1, 0xfc, 0x80, 0x07] ++ bad ++ [0, 2, 0xfc, 0x80, 0x00])),
+      (0x12, [], mkUnit 0x4e (syn ++ [0, 1, 0, 2, 0, 0x4e] ++ ev 1 2 ++ bad ++ ev 2 0)),
+      (0x12, [], mkUnit 0x4e (syn ++ [0, 1, 0, 2, 0, 0x4e] ++ ev 1 14 ++ bad ++ ev 2 0)),
+      (0x12, [], mkUnit 0x4e (syn ++ [0, 1, 0, 2, 0, 0x4e] ++ [0x12])),
+      (0x12, [], mkUnit 0x4e (syn ++ [0, 1, 0, 2, 0, 0x4e] ++ (ev 1 0).take 9)),
+      (0x10, [], mkUnit 0x40 (syn ++ [0xf0, 0x02] ++ bad ++ [0xf0, 0x00])),
+      (0x10, [], mkUnit 0x40 (syn ++ [0xf0, 0x00, 0xf0, 14] ++ [0, 1, 0, 2, 0xf0, 0x02] ++ bad ++ [0, 3, 0, 4, 0xf0, 0x00])),
+      (0x1000, [0x1000], mkUnit 0x02 (syn ++ [0xe1, 0x00, 0xf0, 0x02] ++ bad ++ [0x1b, 0xe1, 0x00, 0xf0, 0x00])),
+      (0x1000, [0x1000], mkUnit 0x02 (syn ++ [0xe1, 0x00, 0xf0, 0x00] ++ [0x1b, 0xe1, 0x00, 0xf0, 0x02] ++ bad ++ [0x0f, 0xe1, 0x01, 0xf0, 0x00])),
+      (0x14, [], mkUnit 0x73 ([0xc0, 0x79, 0x12, 0x45, 0x00] ++ [0xf0, 0x02] ++ bad))]
+    for (pid, pmt, unit) in cases do
+      emit "C09" (parseDataCase pid pmt unit [] "crc-valid-descriptor-overruns-unit")
+  -- (f) a loop entry that starts r bytes before the CRC (too few for its fixed part), the unit going on for t more
+  --     bytes behind the CRC: the entry's fields would have to be read out of the CRC and the stuffing
+  let mkUnit' (tid : Nat) (body : Bytes) : Bytes :=
+    let l := body.length + 4
+    let sec : Bytes := [tid, 0xb0 + l / 256, l % 256] ++ body
+    [0] ++ sec ++ be32' (Spec.crc sec).toNat
+  for (pid, pmt, tid, head, entry) in ([(0x12, [], 0x4e, [0, 1, 0, 2, 0, 0x4e], 12), (0x11, [], 0x42, [0, 1, 0xff], 5),
+                                        (0x1000, [0x1000], 0x02, [0xe1, 0x00, 0xf0, 0x00], 5), (0, [], 0x00, [], 4)] : List (Nat × List Nat × Nat × Bytes × Nat)) do
+    for r in [1:entry] do
+      for tl in [0:13] do
+        for pat in [0, 1] do
+          let residual := (List.range r).map (0x12 + ·)
+          let tail : Bytes := if pat = 0 then ([0xff, 0xff, 0xf0, 0x00, 0xf0, 0x00, 0xff, 0xff, 0x00, 0x00, 0xf0, 0x00] : Bytes).take tl else List.replicate tl 0
+          emit "C09" (parseDataCase pid pmt (mkUnit' tid (syn ++ head ++ residual) ++ tail) [] "crc-valid-short-loop-entry")
   -- muxed sections: PAT/PMT with elementary stream descriptors of any type that fit one packet
   for _ in [0:(if t.quick then 12 else 120)] do
     let n ← liftGen (randRange 1 4)
